@@ -166,6 +166,47 @@ fn c04_unpaired_feeding_routes_concrete() {
     assert!(same(&u6) && arith_bits_f32(u6.stats_a()) == arith_bits_f32(&wa) && arith_bits_f32(u6.stats_b()) == arith_bits_f32(&wb), "new / stats_a / stats_b");
     kani::cover!(true);
 }
+// C09 (concrete, exactly representable data): + and += on Paired / Unpaired states merge component-wise (sample A with
+// sample A, sample B with sample B), the empty state is neutral
+#[kani::proof]
+#[kani::unwind(6)]
+fn c09_comparison_states_merge_concrete() {
+    let mut p1 = Paired::<f32>::default();
+    let mut p2 = Paired::<f32>::default();
+    let mut pw = Paired::<f32>::default();
+    assert!(p1.append_pair(4.0, 1.0).is_ok() && p1.append_pair(2.0, 1.0).is_ok() && p2.append_pair(8.0, 0.0).is_ok());
+    assert!(pw.append_pair(4.0, 1.0).is_ok() && pw.append_pair(2.0, 1.0).is_ok() && pw.append_pair(8.0, 0.0).is_ok());
+    let vals = |a: &mean::Arithmetic<f32>| arith_values_f32(a);
+    assert!(vals(&(p1.clone() + p2.clone()).stats) == vals(&pw.stats) && vals(&(p2.clone() + p1.clone()).stats) == vals(&pw.stats), "Paired +");
+    let mut p3 = p1.clone();
+    p3 += p2.clone();
+    assert!(vals(&p3.stats) == vals(&pw.stats), "Paired +=");
+    assert!(vals(&(pw.clone() + Paired::<f32>::default()).stats) == vals(&pw.stats) && vals(&(Paired::<f32>::default() + pw.clone()).stats) == vals(&pw.stats), "empty Paired state is neutral");
+    let mut u1 = Unpaired::<f32>::default();
+    let mut u2 = Unpaired::<f32>::default();
+    let mut uw = Unpaired::<f32>::default();
+    assert!(u1.append_a(2.0).is_ok() && u1.append_b(0.5).is_ok() && u2.append_a(4.0).is_ok() && u2.append_a(8.0).is_ok() && u2.append_b(3.0).is_ok());
+    assert!(uw.append_a(2.0).is_ok() && uw.append_a(4.0).is_ok() && uw.append_a(8.0).is_ok() && uw.append_b(0.5).is_ok() && uw.append_b(3.0).is_ok());
+    let m = u1.clone() + u2.clone();
+    assert!(vals(&m.stats_a) == vals(&uw.stats_a) && vals(&m.stats_b) == vals(&uw.stats_b), "Unpaired + merges A with A and B with B");
+    let mut u3 = u1.clone();
+    u3 += u2.clone();
+    assert!(vals(&u3.stats_a) == vals(&uw.stats_a) && vals(&u3.stats_b) == vals(&uw.stats_b), "Unpaired +=");
+    // a partial state that only saw one of the samples (late-arriving B observations, and the mirror case)
+    let mut only_b = Unpaired::<f32>::default();
+    let mut only_a = Unpaired::<f32>::default();
+    assert!(only_b.append_b(3.0).is_ok() && only_a.append_a(4.0).is_ok() && only_a.append_a(8.0).is_ok());
+    let mut u4 = Unpaired::<f32>::default();
+    assert!(u4.append_a(2.0).is_ok() && u4.append_b(0.5).is_ok());
+    let u5 = (u4.clone() + only_b.clone()) + only_a.clone();
+    assert!(vals(&u5.stats_a) == vals(&uw.stats_a) && vals(&u5.stats_b) == vals(&uw.stats_b), "Unpaired + with one-sample-only partial states");
+    u4 += only_b.clone();
+    u4 += only_a.clone();
+    assert!(vals(&u4.stats_a) == vals(&uw.stats_a) && vals(&u4.stats_b) == vals(&uw.stats_b), "Unpaired += with one-sample-only partial states");
+    let z = uw.clone() + Unpaired::<f32>::default();
+    assert!(vals(&z.stats_a) == vals(&uw.stats_a) && vals(&z.stats_b) == vals(&uw.stats_b), "empty Unpaired state is neutral");
+    kani::cover!(true);
+}
 // the sign of the difference: a_i - b_i (symbolic values, one pair)
 #[kani::proof]
 fn c04_paired_append_pair_is_a_minus_b() {
